@@ -103,15 +103,34 @@ def _impl_worker(args):
     import contextlib
     import io
     import warnings
+    import signal
     stream, case = args
+
+    class _Timeout(Exception):
+        pass
+
+    def _on_alarm(signum, frame):
+        raise _Timeout()
+    armed = False
     try:
+        try:
+            signal.signal(signal.SIGALRM, _on_alarm)
+            signal.setitimer(signal.ITIMER_REAL, float(getattr(stream, 'timeout_s', 120)))
+            armed = True
+        except (ValueError, AttributeError):   # not in the main thread
+            pass
         with contextlib.redirect_stdout(io.StringIO()), warnings.catch_warnings():
             warnings.simplefilter('ignore')
             return ('ok', stream.impl(case))
+    except _Timeout:
+        return ('exc', 'Timeout', 'implementation call exceeded %ss' % getattr(stream, 'timeout_s', 120))
     except BaseException as e:  # noqa
         if isinstance(e, (KeyboardInterrupt, SystemExit)):
             raise
         return ('exc', err_kind(e), ''.join(traceback.format_exception_only(type(e), e)).strip()[-400:])
+    finally:
+        if armed:
+            signal.setitimer(signal.ITIMER_REAL, 0)
 
 
 class ImplError(dict):
